@@ -60,6 +60,92 @@ def run(prog, ctx):
     from . import C02
     n_p = C02.check_set_probe(prog, res, "C13.P")
     res.rule("C13.P", n_p, 1, "probe formula of the HLL coupon hash set")
+    # C13.E  decoded theta state is self-consistent in every reader arm: a sketch decoded as empty has no entries and theta = MAX
+    #        (legacy images carry no emptiness flag; deriving it from the entry count alone turns a non-empty sketch whose
+    #        entries were all screened into an empty one and loses theta)
+    import itertools
+    from .. import formula
+    MAXT = 9223372036854775807
+    CT = "theta::sketch::CompactThetaSketch"
+    n_e = 0
+    for f in [x for x in prog.fns.values() if not x.promoted and x.owner == CT and x.item_name.startswith("deserialize")]:
+        sf = sym.Sym(prog, f)
+        aggs = {}
+        for (ff, b, kind, place, rv, span, adt, fld) in sym.field_stores(prog, adt=CT, fns=[f]):
+            if kind == "agg" and fld in ("empty", "theta", "entries") and rv is not None:
+                aggs.setdefault(b, {})[fld] = (sf.at(b, 0).rvalue(rv), span)
+        for b, flds in sorted(aggs.items()):
+            if len(flds) != 3:
+                continue
+            E, T, N = flds["empty"][0], flds["theta"][0], ("len", flds["entries"][0])
+            paths = sf.path_conditions(b) or []
+            conds = [c for pth in paths for (c, tv) in pth]
+            keys = set(k for e in [E, T, N] for k in formula.leaves(e) if (k.startswith("read_") and "@" in k and k.endswith("()")) or k == "pre_longs")
+            # decisions that involve the same fields (or fields compared with them) constrain the arm; all others are dropped
+            ckeys = {}
+            for c in conds:
+                ckeys[id(c)] = set(k for k in formula.leaves(c) if (k.startswith("read_") and "@" in k and k.endswith("()")) or k == "pre_longs")
+            grow = True
+            while grow:
+                grow = False
+                for c in conds:
+                    ks = ckeys[id(c)]
+                    if ks & keys and not ks <= keys and len(keys | ks) <= 5:
+                        keys |= ks
+                        grow = True
+            keys = sorted(keys)
+            slim = set()
+            for pth in paths:
+                slim.add(tuple((c, tv) for (c, tv) in pth if ckeys[id(c)] and ckeys[id(c)] <= set(keys)))
+            paths = sorted(slim, key=len)
+            if len(keys) > 5:
+                continue
+            n_e += 1
+            res.obligations += 1
+            doms = [((1, 2, 3) if k == "pre_longs" else (0, 1, 5, MAXT - 1, MAXT)) for k in keys]
+            bad = None
+            evaluated = 0
+            for vals in itertools.product(*doms):
+                env = dict(zip(keys, vals))
+                env["@prog"] = prog
+                env["@fn:read_entries"] = lambda c, n, t: [0] * min(int(n), 64) if n is not None else None
+                env["@lenient"] = ("read_entries",)
+                # the arm must be reachable with these field values: some path's decisions all hold (a decision that cannot be
+                # evaluated - remaining input, seed hash - is taken as satisfiable)
+                reach_ok = not paths
+                for pth in paths:
+                    ok_p = True
+                    for c, tv in pth:
+                        try:
+                            v = formula.evaluate(c, env)
+                        except (formula.Uneval, TypeError):
+                            continue
+                        if isinstance(v, tuple):
+                            continue
+                        if (tv[0] == "eq" and v != tv[1]) or (tv[0] == "ne" and v in tv[1]):
+                            ok_p = False
+                            break
+                    if ok_p:
+                        reach_ok = True
+                        break
+                if not reach_ok:
+                    continue
+                try:
+                    e, t, n = formula.evaluate(E, env), formula.evaluate(T, env), formula.evaluate(N, env)
+                except (formula.Uneval, TypeError):
+                    continue
+                evaluated += 1
+                if e and (n != 0 or t != MAXT):
+                    bad = ({k: v for k, v in zip(keys, vals)}, n, t)
+                    break
+            if bad:
+                res.violate("C13.E", "C13.E|%s" % f.id, "%s can decode an image as EMPTY although it has %d entr%s / theta %s (field values %s): emptiness %s" % (
+                    f.id, bad[1], "y" if bad[1] == 1 else "ies", "= MAX" if bad[2] == MAXT else "< MAX", bad[0], sym.show(E)[:120]), f.id, flds["empty"][1])
+            elif evaluated:
+                res.discharged += 1
+            else:
+                res.undecided += 1
+    res.rule("C13.E", n_e, 4, "theta reader arms constructing a sketch (emptiness consistent with entries and theta)")
     if "undecided_reasons" in res.extra:
         res.extra["undecided_reasons"] = sorted(res.extra["undecided_reasons"])[:12]
     res.rule("C13.L", total, 80, "image variants x families run through the reader models")
